@@ -679,14 +679,16 @@ class OrConstraint(AbstractConstraint):
 class _ConstrainedValue(Value):
     """Helper class, only used within a FunctionScope."""
 
-    definition_nodes: frozenset[Node]
+    # Deduplicated, in definition order (not a set, so that the order of the
+    # inferred union does not depend on hashing).
+    definition_nodes: Sequence[Node]
     constraints: Sequence[Constraint]
     resolution_cache: dict[_LookupContext, Value] = field(
         default_factory=dict, init=False, compare=False, hash=False, repr=False
     )
 
 
-_empty_constrained = _ConstrainedValue(frozenset(), [])
+_empty_constrained = _ConstrainedValue((), [])
 
 
 @dataclass
@@ -1071,7 +1073,7 @@ class FunctionScope(Scope):
                 return
 
         varname = constraint.varname.get_varname()
-        def_nodes = frozenset(self.name_to_current_definition_nodes[varname])
+        def_nodes = tuple(dict.fromkeys(self.name_to_current_definition_nodes[varname]))
         # We set both a constraint and its inverse using the same node as the definition
         # node, so cheat and include the constraint itself in the key.
         node = (node, constraint)
@@ -1097,7 +1099,7 @@ class FunctionScope(Scope):
             else:
                 val = self.definition_node_to_value[definer]
                 if isinstance(val, _ConstrainedValue):
-                    pending |= val.definition_nodes
+                    pending.update(val.definition_nodes)
                 else:
                     out.add(definer)
         if not out:
